@@ -42,7 +42,7 @@ DECIDERS = {
     "ISO8601": ["ISO8601"],
 }
 WRAPS = ["{c}", "REQ∧{c}", "OPT∧{c}", "{c}∧REQ"]
-_CFG = {"max_rep": 2, "digits": "0129", "iso_digits": "01"}
+_CFG = {"max_rep": 2, "digits": "0129", "iso_digits": "01", "budget": 150_000}
 
 
 def to_python(v):
@@ -60,13 +60,30 @@ def derivations(kind: str, chain_text: str):
     rules, problems = gbnf.check(g)
     if "f" not in rules:
         return None, g
-    universe_digits = _CFG["iso_digits"] if kind == "ISO8601" else ("0123456789" if kind == "NUMBER" else _CFG["digits"])
-
-    def afc(cls):
-        members = gbnf.class_members(cls, universe_digits + "abXYZ -_.")
-        return members
-
-    return gbnf.derive(rules, rules["f"], afc, _CFG["max_rep"], limit=3_000_000), g
+    other = "abXYZ -_."
+    plans = []
+    if kind == "NUMBER":
+        # (a) all ten digits, short repetitions; (b) longer repetitions over the largest digit sub-alphabet that fits the budget
+        plans.append(("0123456789", _CFG["max_rep"]))
+        for uni in ("0123456789", "01359", "0159", "09", "9"):
+            afc_try = lambda cls, u=uni: gbnf.class_members(cls, u + other)
+            if gbnf.count(rules, rules["f"], afc_try, _CFG["max_rep"] + 1) <= _CFG["budget"]:
+                plans.append((uni, _CFG["max_rep"] + 1))
+                break
+    elif kind == "ISO8601":
+        plans.append((_CFG["iso_digits"], _CFG["max_rep"]))
+    else:
+        plans.append((_CFG["digits"], _CFG["max_rep"]))
+    out, seen = [], set()
+    for uni, rep in plans:
+        afc = lambda cls, u=uni: gbnf.class_members(cls, u + other)
+        if gbnf.count(rules, rules["f"], afc, rep) > 20 * _CFG["budget"]:
+            continue
+        for d in gbnf.derive(rules, rules["f"], afc, rep, limit=20 * _CFG["budget"]):
+            if d not in seen:
+                seen.add(d)
+                out.append(d)
+    return out, g
 
 
 def judge(kind, chain_text, chain, line):
@@ -115,6 +132,7 @@ def run(ctx):
     _CFG["max_rep"] = 2 if ctx.quick else 3
     _CFG["digits"] = "0129"
     _CFG["iso_digits"] = "01" if not ctx.quick else "1"
+    _CFG["budget"] = 150_000 if ctx.quick else 1_500_000
     cases = [(k, w.replace("{c}", c)) for k, cs in DECIDERS.items() for c in cs for w in WRAPS]
     ctx.coverage["bounds"] = {"number_digits": _CFG["max_rep"], "date_digit_alphabet": _CFG["digits"], "iso_digit_alphabet": _CFG["iso_digits"],
                               "chains": [c[1] for c in cases]}
